@@ -12,6 +12,7 @@ from linear_operator.operators.diag_linear_operator import ConstantDiagLinearOpe
 from linear_operator.operators.low_rank_root_linear_operator import LowRankRootLinearOperator
 from linear_operator.operators.sum_batch_linear_operator import SumBatchLinearOperator
 
+from linear_operator.utils.broadcasting import _matmul_broadcast_shape
 from linear_operator.utils.cholesky import psd_safe_cholesky
 from linear_operator.utils.memoize import cached
 
@@ -176,6 +177,9 @@ class LowRankRootAddedDiagLinearOperator(AddedDiagLinearOperator):
                         self.shape, right_tensor.shape
                     )
                 )
+
+        # refuse what (dense) matmul refuses: the Woodbury formula below multiplies elementwise by the diagonal
+        _matmul_broadcast_shape(self.shape, right_tensor.shape)
 
         squeeze_solve = False
         if right_tensor.ndimension() == 1:
